@@ -366,3 +366,18 @@ def lacks_delimiter(meta, owner, fs):
             if lacks_delimiter(meta, sub, e):
                 return True
     return False
+
+
+def render_real(built, schema, items):
+    """[(fnum, text bytes)] -> [printed bytes | None]: Field<T>(text).print() by the REAL conversion
+    (harness op RENDER), for building per-case render tables."""
+    lines = ["RENDER %d %s" % (f, t.hex() or "-") for f, t in items]
+    out = core.run_lines([built["exes"][schema]], lines)
+    res = []
+    for r in out:
+        if r.startswith("OK "):
+            h = r[3:]
+            res.append(b"" if h == "-" else bytes.fromhex(h))
+        else:
+            res.append(None)
+    return res
